@@ -2,6 +2,7 @@ import ShVerif.Model.L3Glob
 import ShVerif.Proofs.L3Glob
 import ShVerif.Proofs.C17
 import ShVerif.Proofs.C17Ext
+import ShVerif.Proofs.C17Fn
 /-
   C17 — Glob patterns match exactly what bash matches.
 
@@ -35,9 +36,12 @@ def extended_matcher_statement : Prop :=
   ∀ (m : Mode) (p : Str), m.entire = true →
     extMatcher m p ≠ .panic ∧ ∀ f, extMatcher m p = .ok f → ∀ s, f s = globMatch m p s
 
-/-- The language theorem on the whole `supported` region, every mode (filename modes and
-    extended operators included).  Stated only: the proof below covers the modes without
-    Filenames and without ExtendedOperators. -/
+/-- The language theorem on the whole `supported` region, every mode.  Stated only.  Proved below
+    are its restrictions to three regions: (1) no Filenames, no ExtendedOperators: all of
+    `supported`; (2) no Filenames, ExtendedOperators: flat pattern-lists; (3) Filenames with
+    NoGlobStar: no bracket expressions, no pattern-lists.  What is left of `supported`: bracket
+    expressions and pattern-lists in the filename modes, `**` as globstar, bracket expressions or
+    nested lists inside a pattern-list. -/
 def regexp_language_supported_statement : Prop :=
   ∀ (m : Mode) (p : Str) (t : Top), m.entire = true → supported m p = true → regexpOf m p = .ok t →
     ∀ s, t.matches s = globMatch m p s
@@ -203,6 +207,116 @@ theorem extended_matcher_partial (m : Mode) (p : Str) (t : Top) (he : m.entire =
   unfold extMatcher
   simp [he, h, regexp_compiles_ext_partial m p t he hx hf hs hl h]
 
+/-! ### The filename modes (slashes, leading dots, `*`, `**` without globstar)
+
+  Third region: EntireString|Filenames|NoGlobStar with any of GlobLeadingDot, NoGlobCase, Shortest,
+  ExtendedOperators — the mode expand.glob uses for every path component — on the `supported`
+  patterns without bracket expressions and pattern-lists (`[` and, with ExtendedOperators, `(` do
+  not occur) and without NUL.  `supported` leaves out here exactly: `?`/`*` where the pattern does
+  not exclude a leading dot (C17-leading-dot), a literal dot after such a `*`
+  (C17-leading-dot-after-star), `*` after `*` at a component start (`***`, C17-leading-dot). -/
+
+/-- **Language equality in the filename modes.** -/
+theorem regexp_language_fn_partial (m : Mode) (p : Str) (t : Top) (he : m.entire = true)
+    (hf : m.filenames = true) (hns : m.noglobstar = true) (hs : supported m p = true)
+    (hb : cLB ∉ p) (hl : m.ext = false ∨ cLP ∉ p) (hz : (0 : Nat) ∉ p)
+    (h : regexpOf m p = .ok t) : ∀ s, t.matches s = globMatch m p s := by
+  intro s
+  have hpp : PP .start 0 := by unfold PP; simp
+  have ha := top_agree_fn m hf hns p.length (p.length + 1) .start 0 p (p.length + 1) (p.length + 1)
+    (Nat.lt_succ_self _) (Nat.lt_succ_self _) hs hpp hb hl hz
+  rw [regexpOf_entire he] at h
+  unfold globMatch parseGlob
+  cases hp : parseSeq m (p.length + 1) 0 p with
+  | error e =>
+    rw [hp] at ha
+    simp only [TopAgreeF] at ha
+    rw [ha] at h
+    cases h
+  | ok g =>
+    rw [hp] at ha
+    simp only [TopAgreeF] at ha
+    obtain ⟨body, hb', _, hsem⟩ := ha
+    rw [hb'] at h
+    simp at h
+    subst h
+    simp only [Top.matches, he, if_true]
+    rw [Bool.eq_iff_iff, rmatch_iff, gmatch_full_iff]
+    exact hsem true s (fun _ => ⟨fun _ => rfl, fun hm => nomatch hm⟩)
+
+/-- **Errors in the filename modes**, same region. -/
+theorem regexp_error_iff_fn_partial (m : Mode) (p : Str) (e : Err) (he : m.entire = true)
+    (hf : m.filenames = true) (hns : m.noglobstar = true) (hs : supported m p = true)
+    (hb : cLB ∉ p) (hl : m.ext = false ∨ cLP ∉ p) (hz : (0 : Nat) ∉ p) :
+    regexpOf m p = .error e ↔ malformed m p = some e := by
+  have hpp : PP .start 0 := by unfold PP; simp
+  have ha := top_agree_fn m hf hns p.length (p.length + 1) .start 0 p (p.length + 1) (p.length + 1)
+    (Nat.lt_succ_self _) (Nat.lt_succ_self _) hs hpp hb hl hz
+  rw [regexpOf_entire he]
+  unfold malformed parseGlob
+  cases hp : parseSeq m (p.length + 1) 0 p with
+  | error e' =>
+    rw [hp] at ha
+    simp only [TopAgreeF] at ha
+    rw [ha]
+    simp
+  | ok g =>
+    rw [hp] at ha
+    simp only [TopAgreeF] at ha
+    obtain ⟨body, hb', _, _⟩ := ha
+    rw [hb']
+    simp
+
+/-- **The result compiles**, filename modes, same region. -/
+theorem regexp_compiles_fn_partial (m : Mode) (p : Str) (t : Top) (he : m.entire = true)
+    (hf : m.filenames = true) (hns : m.noglobstar = true) (hs : supported m p = true)
+    (hb : cLB ∉ p) (hl : m.ext = false ∨ cLP ∉ p) (hz : (0 : Nat) ∉ p)
+    (h : regexpOf m p = .ok t) : goCompiles t.body = true := by
+  have hpp : PP .start 0 := by unfold PP; simp
+  have ha := top_agree_fn m hf hns p.length (p.length + 1) .start 0 p (p.length + 1) (p.length + 1)
+    (Nat.lt_succ_self _) (Nat.lt_succ_self _) hs hpp hb hl hz
+  rw [regexpOf_entire he] at h
+  cases hp : parseSeq m (p.length + 1) 0 p with
+  | error e =>
+    rw [hp] at ha
+    simp only [TopAgreeF] at ha
+    rw [ha] at h
+    cases h
+  | ok g =>
+    rw [hp] at ha
+    simp only [TopAgreeF] at ha
+    obtain ⟨body, hb', hc, _⟩ := ha
+    rw [hb'] at h
+    simp at h
+    subst h
+    exact hc
+
+/-- **The slash invariant** as a theorem about the model: in that region, whenever the emitted
+    expression accepts a subject, the subject has exactly as many slashes as the parsed pattern has
+    literal-slash tokens — no `*` or `?` matched a slash and no literal slash was dropped. -/
+theorem slash_invariant_fn (m : Mode) (p : Str) (t : Top) (he : m.entire = true)
+    (hf : m.filenames = true) (hns : m.noglobstar = true) (hs : supported m p = true)
+    (hb : cLB ∉ p) (hl : m.ext = false ∨ cLP ∉ p) (hz : (0 : Nat) ∉ p)
+    (h : regexpOf m p = .ok t) (s : Str) (hm : t.matches s = true) :
+    ∃ g, parseGlob m p = .ok g ∧ s.count cSlash = litSlashes g := by
+  have hlang := regexp_language_fn_partial m p t he hf hns hs hb hl hz h s
+  rw [hm] at hlang
+  unfold globMatch at hlang
+  cases hp : parseGlob m p with
+  | error e => simp [hp] at hlang
+  | ok g =>
+    refine ⟨g, rfl, ?_⟩
+    simp only [hp, he, if_true] at hlang
+    have hg := (gmatch_full_iff m g true s).mp hlang.symm
+    exact GDen_slashes m hf g (parse_simple m hns _ _ p hb hl g hp) true s hg
+
+/-- The reference itself has the invariant, for every simple pattern (bracket expressions
+    included): a bracket expression, `?` or `*` never consumes a slash in filename mode. -/
+theorem reference_slash_invariant (m : Mode) (hf : m.filenames = true) (g : Glob)
+    (hg : simpleGlob g = true) (b : Bool) (s : Str) (h : GDen m g b s) :
+    s.count cSlash = litSlashes g :=
+  GDen_slashes m hf g hg b s h
+
 /-- In that region `Regexp` never answers with a NegExtGlobError. -/
 theorem regexp_total_partial (m : Mode) (p : Str) (he : m.entire = true)
     (hx : m.ext = false) (hf : m.filenames = false) (hs : supported m p = true) :
@@ -278,6 +392,12 @@ example : supported m68 (strOf "a@(b*|c?)+(x|\\|)[0-9]") = true ∧ flatLists m6
   decide +kernel
 example : globMatch m68 (strOf "a@(b*|c?)+(x|\\|)[0-9]") (strOf "abzzx|x7") = true := by decide +kernel
 example : flatLists m68 (strOf "+([0-9])") = false := by decide +kernel
+def m22 : Mode := Mode.ofNat 22    -- Filenames | EntireString | NoGlobStar: the mode of expand.glob
+example : supported m22 (strOf "a*/.b?c/*x.d") = true := by decide +kernel
+example : supported m22 (strOf "*.d") = false ∧ supported m22 (strOf "?a") = false := by decide +kernel
+example : globMatch m22 (strOf "a*/.b?c/*x.d") (strOf "ax/.bzc/yx.d") = true := by decide +kernel
+example : globMatch m22 (strOf "*.d") (strOf ".d") = false ∧ globMatch m22 (strOf "*") (strOf "a/b") = false := by
+  decide +kernel
 example : globMatch m68 (strOf "@(a(b)c)") (strOf "a(b)c") = true := by decide +kernel
 
 end ShVerif.C17
